@@ -82,6 +82,7 @@ fn poke(ctx: &mut Ctx, st: FlowSt) {
                 let _ = lib("Flow<Redirect>::must_close_connection", || f.must_close_connection());
                 let _ = lib("Flow<Redirect>::close_reason", || f.close_reason());
                 let _ = lib("Flow<Redirect>::as_new_flow", || f.as_new_flow(RedirectAuthHeaders::SameHost).map(|o| o.is_some()));
+                let _ = lib("repeat_Flow<Redirect>::as_new_flow", || f.as_new_flow(RedirectAuthHeaders::Never).map(|o| o.is_some()));
                 FlowSt::Cleanup(lib("Flow<Redirect>::proceed", || f.proceed()))
             }
             FlowSt::Cleanup(f) => {
